@@ -9,7 +9,7 @@ IntValsOf(T) == { v \in XInts : IntFits(v[2], v[3], T) }
 Typed ==
   UNION { { <<T, v>> : v \in IntValsOf(T) } : T \in IntTypes }
   \cup { <<"bool", <<"bool", b>>>> : b \in BOOLEAN } \cup { <<"null", <<"nil">>>> }
-  \cup { <<"f64", v>> : v \in XFloats } \cup { <<"f32", <<"f32", XmlFloatTable[i].f32>>>> : i \in 1..Len(XmlFloatTable) }
+  \cup { <<"f64", v>> : v \in XFloats } \cup { <<"f32", <<"f32", XmlFloatTable[i].f32>>>> : i \in XmlFloat32Rows }
   \cup { <<"str", v>> : v \in XStrings \cup XStringsCr \cup {XS(<<>>)} }
   \cup { <<"vec_i32", <<"arr", a>>>> : a \in { <<>>, <<XU(1), XU(-3), XU(40000)>> } }
   \cup { <<"vec_str", <<"arr", <<XS(<<34, 208, 159>>), XS(<<120>>)>>>>>>,
@@ -28,7 +28,8 @@ Opts == { [fmt |-> FALSE, padChar |-> 32, padNum |-> 0, enc |-> "utf8", bom |-> 
           [fmt |-> TRUE, padChar |-> 9, padNum |-> 1, enc |-> "utf16le", bom |-> TRUE],
           [fmt |-> FALSE, padChar |-> 32, padNum |-> 0, enc |-> "utf16be", bom |-> FALSE],
           [fmt |-> TRUE, padChar |-> 32, padNum |-> 4, enc |-> "utf32le", bom |-> FALSE],
-          [fmt |-> FALSE, padChar |-> 32, padNum |-> 0, enc |-> "utf32be", bom |-> TRUE] }
+          [fmt |-> FALSE, padChar |-> 32, padNum |-> 0, enc |-> "utf32be", bom |-> TRUE],
+          [fmt |-> TRUE, padChar |-> 32, padNum |-> 3, enc |-> "utf8", bom |-> FALSE] }      \* pretty UTF-8 without BOM: stream bytes = memory bytes
 Init == /\ n = 0 /\ opt \in Opts
         /\ \/ \E tv \in Typed : root = [k |-> "arr", ops |-> <<ElemOp(tv), ElemOp(<<"i32", XU(7)>>)>>]
            \/ \E tv \in Typed : root = [k |-> "obj", ops |-> <<ReqOp(<<97>>, tv)>>]
@@ -37,6 +38,7 @@ AttrOp(key, tv) == [op |-> "attr", ks |-> key, t |-> tv[1], v |-> tv[2]]
 Members == { AttrOp(<<120, 49>>, <<"i32", XU(300)>>), AttrOp(<<120, 50>>, <<"str", XS(<<97, 9, 98, 10, 34, 99, 39, 60, 38, 62, 13>>)>>),
              AttrOp(<<120, 51>>, <<"f64", <<"f64", X8(63,248,0,0,0,0,0,0)>>>>), AttrOp(<<120, 52>>, <<"bool", <<"bool", TRUE>>>>),
              AttrOp(<<120, 53>>, <<"u64", <<"int", FALSE, X8(255,255,255,255,255,255,255,255)>>>>),
+             AttrOp(<<120, 54>>, <<"f64", <<"f64", X8(63,211,51,51,51,51,51,52)>>>>),         \* an attribute that needs 17 significant digits
              [op |-> "obj", ks |-> <<112>>, ops |-> <<AttrOp(<<121>>, <<"i8", XU(-128)>>), ReqOp(<<122>>, <<"str", XS(<<208, 159>>)>>)>>],
              [op |-> "base", ops |-> <<ReqOp(<<66>>, <<"u8", XU(1)>>), ReqOp(<<67>>, <<"str", XS(<<226, 130, 172>>)>>)>>],
              ReqOp(<<107>>, <<"u32", <<"int", FALSE, X8(0,0,0,0,238,107,40,0)>>>>),
